@@ -27,6 +27,7 @@ func runC10b(c *Ctx) {
 	L, P := c.L, c.P
 	L.Rule("R-C10-LAYOUT", "page word layout and the bit fields of the meta word agree between their readers and writers", 8)
 	L.Rule("R-C10-NODESET", "node.set / moveRight / maxKey: position, shift, count and stores", 3)
+	L.Rule("R-C10-EXACT", "DeleteBelow is exact: the max key compact retains for routing stops answering when its value is below the threshold (finding F7)", 1)
 	L.Rule("R-C10-DESCEND", "Tree.set and Tree.get descend through the same slot; miss, claim, link and re-file conditions", 5)
 
 	ret1 := func(fn *ssa.Function) (string, bool) {
@@ -289,6 +290,52 @@ func runC10b(c *Ctx) {
 			}
 		}
 		L.Check(len(problems) == 0, "R-C10-NODESET", "node.maxKey", "key(numKeys-1) for a non-empty node, key(0) for an empty one", strings.Join(problems, "; "), fn.Pos())
+	})
+
+	// ---- R-C10-EXACT (finding F7): a retained max key does not keep a value below the threshold
+	c.Group("R-C10-EXACT", "node.compact#maxkey", func() {
+		// compact keeps the node's largest key whatever its value (the parent routes by it). "DeleteBelow
+		// removes exactly the keys whose value is below ts" then needs the kept entry to stop answering:
+		// after the count is set (setNumKeys(left)), on every path on which the last kept entry's value is
+		// below lo, its value word is overwritten with 0 - the value node.get and IterateKV read as "no entry".
+		fn := P.Fn("z", "node", "compact")
+		L.Analysed(fname(fn))
+		tb := newTB(fn)
+		snk := callsTo(fn, "z.node.setNumKeys")
+		if len(snk) != 1 {
+			L.Undecided("R-C10-EXACT", "node.compact#maxkey", fmt.Sprintf("expected one setNumKeys, found %d", len(snk)), fn.Pos())
+			return
+		}
+		Lt := tb.T(snk[0].Common().Args[1]).String()
+		last := "sub(" + Lt + ",c[1])"
+		var zero []ssa.Instruction
+		for _, ci := range callsTo(fn, "z.node.setAt") {
+			if termStrings(termsOf(tb, ci.Common().Args)) == "p[0], call[z.valOffset]("+last+"), c[0]" {
+				zero = append(zero, ci)
+			}
+		}
+		stale := "lt(call[z.node.val](p[0]," + last + "),p[1])"
+		staleT := edgesWhere(fn, tb, stale, nil, true)
+		if len(zero) == 0 || len(staleT) == 0 {
+			L.Fail("R-C10-EXACT", "node.compact#maxkey", "the node's largest key is kept with its old value even when that value is below the threshold (no `if val(left-1) < lo { setAt(valOffset(left-1), 0) }` after the compaction): Get keeps returning it and IterateKV keeps visiting it after DeleteBelow, as long as its leaf holds another live key", fn.Pos())
+			return
+		}
+		// explore only the paths on which there is a kept entry, it is the max key, and it is stale
+		cut := cutSet(edgesWhere(fn, tb, stale, nil, false), edgesWhere(fn, tb, "lt(c[0],"+Lt+")", nil, false),
+			edgesWhere(fn, tb, "eq(call[z.node.key](p[0],"+last+"),call[z.node.maxKey](p[0]))", nil, false))
+		var problems []string
+		if bad, path := reach(after(snk[0]), isReturn, isAnyInstr(zero), cut); bad != nil {
+			problems = append(problems, "a path returns with the stale value still in place (block path "+pathString(path)+")")
+		}
+		for _, z := range zero {
+			if b, _ := reach(entryPos(fn), isInstr(z), nil, cutSet(staleT)); b != nil {
+				problems = append(problems, "the kept entry's value is wiped although it is not below the threshold (a live key is lost)")
+			}
+			if !instrDominates(snk[0], z) {
+				problems = append(problems, "the value is wiped before the compaction finished (left is not final)")
+			}
+		}
+		L.Check(len(problems) == 0, "R-C10-EXACT", "node.compact#maxkey", "the retained max key's value is overwritten with 0 exactly when it is below lo, after the compaction", strings.Join(problems, "; "), zero[0].Pos())
 	})
 
 	// ---- R-C10-DESCEND
